@@ -105,6 +105,22 @@ def canon_result(result, flags):
     return out
 
 
+def types_arg(types, form):
+    """the message-type filter in the container / element form the API accepts: 'set' (default), 'list', 'tuple' of
+    MessageType values (duplicates kept in list / tuple), 'classes' = tuple of payload classes (every type must have one),
+    'mixed' = list with the payload class where there is one and the MessageType otherwise (constructor only)"""
+    vals = [mtype(t) for t in types]
+    if form == 'list':
+        return list(vals)
+    if form == 'tuple':
+        return tuple(vals)
+    if form == 'classes':
+        return tuple(message_type_to_class[v] for v in vals)
+    if form == 'mixed':
+        return [message_type_to_class.get(v, v) for v in vals]
+    return set(vals)
+
+
 def aliased(results, flags):
     """tags of the mutable pieces (and 'L' for the yielded list itself) whose object identity is shared between two
     different yielded results — a caller keeping the results would see one overwrite the other"""
